@@ -1228,7 +1228,7 @@ class Scenario(TagAndStatusStatement, Replayable):
                     step.status = Status.skipped
 
         self.clear_status()  # -- ENFORCE: compute_status() after run.
-        if not run_scenario and not self.steps:
+        if not run_scenario and not self.steps and not self.background_steps:
             # -- SPECIAL CASE: Scenario without steps.
             self.set_status(Status.skipped)
 
